@@ -57,3 +57,21 @@ def find_calls(f, pred):
 
 def calls_named(f, *names):
     return find_calls(f, lambda c: U(c.func) in names or (isinstance(c.func, ast.Attribute) and c.func.attr in names))
+
+
+def borrow(repo, res, module, from_rule, as_rule, text):
+    """evaluate another property's rule module and adopt the obligations of one of its rules
+    under a rule id of this property (shared structural clause, e.g. C03/C27)"""
+    import importlib
+
+    from .. import report
+
+    tmp = report.Result("tmp", res.tier)
+    importlib.import_module(f"sa.rules.{module}").run(repo, tmp)
+    res.rule(as_rule, text)
+    got = [o for o in tmp.obs if o["rule"] == from_rule]
+    if not got:
+        raise AnalysisError(f"{as_rule}: rule {from_rule} of {module} produced no obligation (anchor vanished)")
+    for o in got:
+        res._add(o["status"], as_rule, o["construct"], o["detail"], o["loc"])
+    return got
